@@ -68,19 +68,35 @@ class AsmLayout:
             out.append({"id": "placement/%s" % shape, "kind": "placement", "shape": shape})
         for shape in ("duplicate-label", "undefined-symbol", "undefined-branch", "equ-value"):
             out.append({"id": "symbols/%s" % shape, "kind": "symbols", "shape": shape})
+        # a name defined twice, by every pair of defining statement kinds, adjacent / one / three statements apart, used or not
+        for k1 in DEF_KINDS:
+            for k2 in DEF_KINDS:
+                for gap in (0, 1, 3):
+                    for used in (False, True):
+                        if tier != "thorough" and not (gap == 1 and not used) and (k1, k2, gap, used) not in (
+                                ("ins", "ins", 0, False), ("ins", "ins", 3, True), ("ins", "equ", 3, True), ("equ", "ins", 0, False),
+                                ("equ", "equ", 3, False), ("data", "equ", 0, True)):
+                            continue
+                        out.append({"id": "symbols/dup/%s-%s/gap%d%s" % (k1, k2, gap, "/used" if used else ""), "kind": "symbols",
+                                    "shape": "dup", "k1": k1, "k2": k2, "gap": gap, "used": used, "bounded": "concrete program shape"})
+        # a name that is never defined, in every operand position that takes a symbol
+        for pos in UNDEF_POS:
+            for others in (False, True):
+                out.append({"id": "symbols/undef/%s%s" % (pos, "/other-symbols" if others else ""), "kind": "symbols", "shape": "undef",
+                            "pos": pos, "others": others, "bounded": "concrete program shape"})
         return out
 
     # ------------------------------------------------------------------
     def run(self, env, cell):
         getattr(self, "k_" + cell["kind"])(env, cell, env.mode == "native")
 
-    def _gate(self, env, run, sig):
+    def _gate(self, env, run, sig, split=None):
         if run.status == "hang":
-            env.fail("C13:terminates", ("C13", "C03"), sig("hang"))
+            env.fail("C13:terminates", ("C13", "C03"), sig("hang"), split=split)
             return False
         env.ensure("C13:terminates", True, ("C13",))
         if run.status == "escape":
-            env.fail("C13:no-internal-error", ("C13",), sig("escape:%s" % run.exc_class))
+            env.fail("C13:no-internal-error", ("C13",), sig("escape:%s" % run.exc_class), split=split)
             return False
         env.ensure("C13:no-internal-error", True, ("C13",))
         return True
@@ -101,7 +117,7 @@ class AsmLayout:
             si, ti, gi = len(head) + 2, len(head), len(head) + 1
         return head + body, org, n, si, ti, gi
 
-    def _layout(self, env, run, org, n, gi, sig, has_org):
+    def _layout(self, env, run, org, n, gi, sig, has_org, split=None):
         """C02 chain against image semantics; returns spec addresses (list) or None"""
         addrs = []
         a = org
@@ -115,14 +131,14 @@ class AsmLayout:
             a = a + ln
         for k, st in enumerate(run.stmts):
             if st.address is None:
-                env.fail("C02:chain", ("C02",), sig("statement-without-address"))
+                env.fail("C02:chain", ("C02",), sig("statement-without-address"), split=split)
                 return None
             ok_chain = ok_chain & (st.address == addrs[k])
-        env.ensure("C02:chain", ok_chain, ("C02",), sig("listing-address!=image-offset"))
+        env.ensure("C02:chain", ok_chain, ("C02",), sig("listing-address!=image-offset"), split=split)
         for k, st in enumerate(run.stmts):
             if k != gi and not st.is_org:
-                env.ensure("C02:size", st.size == len(st.bytes), ("C02",), sig("size=%s,len=%d@%d" % (st.size, len(st.bytes), k)))
-        env.ensure("C02:rmb-size", run.stmts[gi].size == n, ("C02", "C05"), sig("rmb-size"))
+                env.ensure("C02:size", st.size == len(st.bytes), ("C02",), sig("size=%s,len=%d@%d" % (st.size, len(st.bytes), k)), split=split)
+        env.ensure("C02:rmb-size", run.stmts[gi].size == n, ("C02", "C05"), sig("rmb-size"), split=split)
         return addrs
 
     def k_rel(self, env, cell, native):
@@ -140,41 +156,42 @@ class AsmLayout:
 
         def sig(what):
             return (lambda: "rel:%s:%s:%s:dist=%s" % (m, cell["dir"], what, _dclass(dist))) if native else None
-        if not self._gate(env, run, sig):
+        sp = csplit(dist, DCLASSES)
+        if not self._gate(env, run, sig, sp):
             return
         in_range = bool((dist >= -128) & (dist <= 127)) if short else True
         if run.status == "diag":
             if in_range:
-                env.fail("C03:accepted", ("C03", "C01"), sig("rejected:%s" % run.exc_class))
+                env.fail("C03:accepted", ("C03", "C01"), sig("rejected:%s" % run.exc_class), split=sp)
             else:
                 env.ensure("C03:short-range-rejected", True, ("C03",))
             return
         if not in_range:
-            env.fail("C03:short-range-rejected", ("C03", "C12"), sig("out-of-range-accepted"))
+            env.fail("C03:short-range-rejected", ("C03", "C12"), sig("out-of-range-accepted"), split=sp)
             return
-        addrs = self._layout(env, run, org, n, gi, sig, cell["org"] == "org")
+        addrs = self._layout(env, run, org, n, gi, sig, cell["org"] == "org", split=sp)
         if addrs is None:
             return
         st = run.stmts[si]
         d = mc6809.decode(st.bytes)
         if not (d.ok and d.length == len(st.bytes) and m in mc6809.names_of(d.op) and d.mode in ("rel8", "rel16")):
-            env.fail("C03:target", ("C03", "C01"), sig("undecodable:%s" % (d.why or dsum(d))))
+            env.fail("C03:target", ("C03", "C01"), sig("undecodable:%s" % (d.why or dsum(d))), split=sp)
             return
         env.ensure("C03:target", (addrs[si] + len(st.bytes) + d.offset - addrs[ti]) % 65536 == 0, ("C03", "C01"),
-                   sig("wrong-target"))
-        self._symbols(env, run, addrs, ti, org, cell, sig)
+                   sig("wrong-target"), split=sp)
+        self._symbols(env, run, addrs, ti, org, cell, sig, split=sp)
 
-    def _symbols(self, env, run, addrs, ti, org, cell, sig):
+    def _symbols(self, env, run, addrs, ti, org, cell, sig, split=None):
         tv = run.symbols.get("T")
         if tv is None:
-            env.fail("C02:symbol-value", ("C02",), sig("symbol-T-missing"))
+            env.fail("C02:symbol-value", ("C02",), sig("symbol-T-missing"), split=split)
         else:
-            env.ensure("C02:symbol-value", tv == addrs[ti], ("C02",), sig("symbol!=listing-address"))
+            env.ensure("C02:symbol-value", tv == addrs[ti], ("C02",), sig("symbol!=listing-address"), split=split)
         if cell["org"] == "org":
             if run.origin is None:
-                env.fail("C02:origin", ("C02", "C11"), sig("origin-missing"))
+                env.fail("C02:origin", ("C02", "C11"), sig("origin-missing"), split=split)
             else:
-                env.ensure("C02:origin", run.origin == org, ("C02", "C11"), sig("origin-mismatch"))
+                env.ensure("C02:origin", run.origin == org, ("C02", "C11"), sig("origin-mismatch"), split=split)
 
     def k_pcr(self, env, cell, native):
         m, tmpl = PCR_SRC[cell["src"]]
@@ -198,12 +215,13 @@ class AsmLayout:
 
         def sig(what):
             return (lambda: "%s:%s:%s:n=%s" % (cell["src"], cell["dir"], what, _nclass(n))) if native else None
-        if not self._gate(env, run, sig):
+        sp = csplit(n, NCLASSES)
+        if not self._gate(env, run, sig, sp):
             return
         if run.status == "diag":
-            env.fail("C03:accepted", ("C03", "C01"), sig("rejected:%s" % run.exc_class))
+            env.fail("C03:accepted", ("C03", "C01"), sig("rejected:%s" % run.exc_class), split=sp)
             return
-        addrs = self._layout(env, run, org, n, gi, sig, cell["org"] == "org")
+        addrs = self._layout(env, run, org, n, gi, sig, cell["org"] == "org", split=sp)
         if addrs is None:
             return
         st = run.stmts[si]
@@ -211,11 +229,11 @@ class AsmLayout:
         indirect = tmpl.startswith("[")
         if not (d.ok and d.length == len(st.bytes) and m in mc6809.names_of(d.op) and d.mode == "idx"
                 and d.kind in ("pcr8", "pcr16") and d.indirect == indirect):
-            env.fail("C03:target", ("C03", "C01"), sig("undecodable:%s" % (d.why or dsum(d))))
+            env.fail("C03:target", ("C03", "C01"), sig("undecodable:%s" % (d.why or dsum(d))), split=sp)
             return
         env.ensure("C03:target", (addrs[si] + len(st.bytes) + d.offset - (addrs[ti] + c)) % 65536 == 0, ("C03", "C01", "C04"),
-                   sig("wrong-target:%s" % d.kind))
-        self._symbols(env, run, addrs, ti, org, cell, sig)
+                   sig("wrong-target:%s" % d.kind), split=sp)
+        self._symbols(env, run, addrs, ti, org, cell, sig, split=sp)
 
     def k_abs(self, env, cell, native):
         m, tmpl, field = ABS_SRC[cell["src"]]
@@ -226,25 +244,30 @@ class AsmLayout:
         run = assemble(env, lines, bytes_of=skip)
         env.info["run"] = repr(run)
 
+        # root-cause feature of this family: is the label's (listing) address below $100 ?
+        ta = run.stmts[ti].address if run.status == "ok" and len(run.stmts) > ti else None
+
+        def tcls():
+            return "?" if ta is None else ("<256" if ta < 256 else ">=256")
+
         def sig(what):
-            ta = None
-            return (lambda: "%s:%s:%s:%s" % (cell["src"], cell["dir"], cell["org"], what)) if native else None
-        if not self._gate(env, run, sig):
+            return (lambda: "%s:%s:%s:%s:T=%s" % (cell["src"], cell["dir"], cell["org"], what, tcls())) if native else None
+        sp = None if (native or ta is None or isinstance(ta, int)) else [("<256", ta < 256), (">=256", ta >= 256)]
+        if not self._gate(env, run, sig, sp):
             return
         if run.status == "diag":
-            env.fail("C01:accepted", ("C01", "C04"), sig("rejected:%s" % run.exc_class))
+            env.fail("C01:accepted", ("C01", "C04"), sig("rejected:%s" % run.exc_class), split=sp)
             return
-        addrs = self._layout(env, run, org, n, gi, sig, cell["org"] == "org")
+        addrs = self._layout(env, run, org, n, gi, sig, cell["org"] == "org", split=sp)
         if addrs is None:
             return
         st = run.stmts[si]
         d = mc6809.decode(st.bytes)
         T = addrs[ti]
 
-        def tsig(what):
-            return (lambda: "%s:%s:%s:%s:T=%s" % (cell["src"], cell["dir"], cell["org"], what, "<256" if T < 256 else ">=256")) if native else None
+        tsig = sig
         if not (d.ok and d.length == len(st.bytes) and m in mc6809.names_of(d.op)):
-            env.fail("C01:label-operand", ("C01", "C04", "C12"), tsig("undecodable:%s" % (d.why or "length")))
+            env.fail("C01:label-operand", ("C01", "C04", "C12"), tsig("undecodable:%s" % (d.why or "length")), split=sp)
             return
         if field == "mem":
             ok = (d.mode in ("dir", "ext")) and bool(d.value == T) if d.mode in ("dir", "ext") else False
@@ -257,8 +280,8 @@ class AsmLayout:
         else:
             ok = d.mode == "idx" and d.kind in ("off0", "off5", "off8", "off16") and d.reg == "X" and not d.indirect and \
                 bool((d.offset - T) % 65536 == 0)
-        env.ensure("C01:label-operand", ok, ("C01", "C04"), tsig("meaning:%s" % dsum(d)))
-        self._symbols(env, run, addrs, ti, org, cell, sig)
+        env.ensure("C01:label-operand", ok, ("C01", "C04"), tsig("meaning:%s" % dsum(d)), split=sp)
+        self._symbols(env, run, addrs, ti, org, cell, sig, split=sp)
 
     def k_multi(self, env, cell, native):
         shape = cell["shape"]
@@ -286,10 +309,12 @@ class AsmLayout:
 
         def sig(what):
             return (lambda: "pcr-multi/%s:%s:n1=%s,n2=%s" % (shape, what, _nclass(n1), _nclass(n2))) if native else None
-        if not self._gate(env, run, sig):
+        from lemmas.asm_data import product_split
+        sp = None if native else product_split([csplit(n1, NCLASSES), csplit(n2, NCLASSES)])
+        if not self._gate(env, run, sig, sp):
             return
         if run.status == "diag":
-            env.fail("C03:accepted", ("C03",), sig("rejected:%s" % run.exc_class))
+            env.fail("C03:accepted", ("C03",), sig("rejected:%s" % run.exc_class), split=sp)
             return
         addrs = []
         a = 0
@@ -300,16 +325,16 @@ class AsmLayout:
         for k, st in enumerate(run.stmts):
             ok_chain = ok_chain & (st.address == addrs[k])
             if k not in gis:
-                env.ensure("C02:size", st.size == len(st.bytes), ("C02",), sig("size!=len@%d" % k))
-        env.ensure("C02:chain", ok_chain, ("C02",), sig("listing-address!=image-offset"))
+                env.ensure("C02:size", st.size == len(st.bytes), ("C02",), sig("size!=len@%d" % k), split=sp)
+        env.ensure("C02:chain", ok_chain, ("C02",), sig("listing-address!=image-offset"), split=sp)
         for si, (ti, indirect) in refs.items():
             st = run.stmts[si]
             d = mc6809.decode(st.bytes)
             if not (d.ok and d.length == len(st.bytes) and d.mode == "idx" and d.kind in ("pcr8", "pcr16") and d.indirect == indirect):
-                env.fail("C03:target", ("C03",), sig("undecodable@%d:%s" % (si, d.why or dsum(d))))
+                env.fail("C03:target", ("C03",), sig("undecodable@%d:%s" % (si, d.why or dsum(d))), split=sp)
                 continue
             env.ensure("C03:target", (addrs[si] + len(st.bytes) + d.offset - addrs[ti]) % 65536 == 0, ("C03",),
-                       sig("wrong-target@%d:%s" % (si, d.kind)))
+                       sig("wrong-target@%d:%s" % (si, d.kind)), split=sp)
 
     def k_placement(self, env, cell, native):
         shape = cell["shape"]
@@ -353,7 +378,20 @@ class AsmLayout:
     def k_symbols(self, env, cell, native):
         shape = cell["shape"]
         sig = lambda what: (lambda: "symbols/%s:%s" % (shape, what)) if native else None
-        if shape == "duplicate-label":
+        if shape == "dup":
+            sig = lambda what: (lambda: "symbols/dup/%s-%s:%s" % (cell["k1"], cell["k2"], what)) if native else None
+            lines = [" ORG $3000\n", "DUP " + DEF_KINDS[cell["k1"]] + "\n"]
+            if cell["used"]:
+                lines.append(" JMP DUP\n")
+            lines += [" NOP\n"] * cell["gap"]
+            lines += ["DUP " + DEF_KINDS[cell["k2"]].replace("$4000", "$4100") + "\n", " RTS\n"]
+        elif shape == "undef":
+            sig = lambda what: (lambda: "symbols/undef/%s:%s" % (cell["pos"], what)) if native else None
+            lines = [" ORG $3000\n"]
+            if cell["others"]:
+                lines += ["UNDE EQU $10\n", "UNDEFX NOP\n"]
+            lines += [UNDEF_POS[cell["pos"]] + "\n", " RTS\n"]
+        elif shape == "duplicate-label":
             lines = ["A NOP\n", "B NOP\n", "A NOP\n"]
         elif shape == "undefined-symbol":
             lines = [" LDA UNDEF\n", " NOP\n"]
@@ -377,6 +415,13 @@ class AsmLayout:
             env.ensure("C02:rejected", run.status == "diag", ("C02",), sig("accepted"))
 
 
+DEF_KINDS = {"ins": "LDA #$01", "equ": "EQU $4000", "data": "FCB 1", "rmb": "RMB 2"}
+UNDEF_POS = {"ext": " LDA UNDEF", "jmp": " JMP UNDEF", "imm8": " LDA #UNDEF", "imm16": " LDX #UNDEF", "dir": " LDA <UNDEF", "extf": " LDA >UNDEF",
+             "idx": " LDA UNDEF,X", "ind": " LDA [UNDEF]", "indidx": " LDA [UNDEF,Y]", "pcr": " LDA UNDEF,PCR", "indpcr": " LDX [UNDEF,PCR]",
+             "bra": " BRA UNDEF", "lbra": " LBRA UNDEF", "bsr": " BSR UNDEF", "expr-l": " LDA UNDEF+1", "expr-r": " LDA 1+UNDEF",
+             "fdb": " FDB UNDEF", "fcb": " FCB UNDEF", "equ": "V EQU UNDEF", "rmb": " RMB UNDEF", "org": " ORG UNDEF"}
+
+
 def _split(t):
     out, cur = [], ""
     i = 0
@@ -395,20 +440,31 @@ def _split(t):
     return out
 
 
+DCLASSES = ((-10 ** 9, -32769), (-32768, -137), (-136, -129), (-128, -121), (-120, -1), (0, 119), (120, 127), (128, 135),
+            (136, 32767), (32768, 10 ** 9))
+NCLASSES = ((0, 100), (101, 119), (120, 124), (125, 127), (128, 130), (131, 255), (256, 32000), (32001, 33000), (33001, 10 ** 9))
+
+
+def csplit(v, classes):
+    """input classes of a symbolic quantity (see asm_forms.vsplit)"""
+    if v is None or isinstance(v, int):
+        return None
+    return [("%d..%d" % (lo, hi), (v >= lo) & (v <= hi)) for lo, hi in classes]
+
+
 def _dv(c):
     from pyvc.sym import mk
     return mk(c.code - 48)
 
 
 def _dclass(d):
-    for lo, hi in ((-10 ** 9, -32769), (-32768, -137), (-136, -129), (-128, -121), (-120, -1), (0, 119), (120, 127), (128, 135),
-                   (136, 32767), (32768, 10 ** 9)):
+    for lo, hi in DCLASSES:
         if lo <= d <= hi:
             return "%d..%d" % (lo, hi)
 
 
 def _nclass(n):
-    for lo, hi in ((0, 100), (101, 119), (120, 124), (125, 127), (128, 130), (131, 255), (256, 32000), (32001, 33000), (33001, 10 ** 9)):
+    for lo, hi in NCLASSES:
         if lo <= n <= hi:
             return "%d..%d" % (lo, hi)
 
